@@ -416,6 +416,10 @@ FieldOk(f, rec) ==
     [] OTHER -> TRUE
 FieldsOk(fs, i, rec) == IF i > Len(fs) THEN TRUE ELSE FieldOk(fs[i], rec) /\ FieldsOk(fs, i + 1, rec)
 
+\* what a reader of the frame must find in a time field: the duration its wire value stands for (whole wire units)
+DurFieldOf(kind, name) == LET fs == Layout[kind].fields IN fs[CHOOSE i \in 1..Len(fs) : fs[i].k = "dur" /\ fs[i].name = name]
+DurReread(kind, rec, name) == LET f == DurFieldOf(kind, name)  u == Units(rec[name], f.scale) IN DurOf(u[1], u[2], f.scale)
+
 \* more elements than the protocol allows in one packet: an implementation may refuse such a packet
 OverProtocolMax(kind, rec) == \E i \in 1..Len(Layout[kind].fields) :
    LET f == Layout[kind].fields[i] IN f.k \in {"vec", "vecw32", "vecip"} /\ Len(rec[f.name]) > f.pmax
